@@ -1,4 +1,46 @@
-(* placeholder until the proofs are integrated *)
-From DictIO Require Import Chars Str Value Scalar.
-Theorem C04_placeholder : True. Proof. exact I. Qed.
-Print Assumptions C04_placeholder.
+(* C04  Scalar typing is total, deterministic and follows the documented type table.
+   This file contains only theorem statements closed by [exact lemma] and Print Assumptions. *)
+From Coq Require Import NArith ZArith List Bool.
+From DictIO Require Import Chars Str Value Scalar TypeTable ScalarProofs.
+Import ListNotations.
+
+(* never fails *)
+Theorem C04_total : forall s e, parse_value s <> Raise e.
+Proof. exact parse_value_total. Qed.
+Print Assumptions C04_total.
+
+(* follows the documented table ... *)
+Theorem C04_table : forall s, exists v, parse_value s = Ok v /\ classify s v.
+Proof. exact parse_value_table. Qed.
+Print Assumptions C04_table.
+
+(* ... which is deterministic *)
+Theorem C04_table_functional : forall s v1 v2, classify s v1 -> classify s v2 -> v1 = v2.
+Proof. exact classify_functional. Qed.
+Print Assumptions C04_table_functional.
+
+(* classifying an already classified quote-free value changes nothing *)
+Theorem C04_idem : forall s v, quote_free s = true -> parse_value s = Ok v -> parse_scalar v = Ok v.
+Proof. exact parse_value_idem. Qed.
+Print Assumptions C04_idem.
+
+(* writer spellings are classified back to the value they came from: every int, bool, None, finite float repr *)
+Theorem C04_fmt_int : forall z, parse_value (format_scalar (SInt z)) = Ok (SInt z).
+Proof. exact fmt_int_roundtrip. Qed.
+Print Assumptions C04_fmt_int.
+
+Theorem C04_fmt_bool_none :
+  (forall b, parse_value (format_scalar (SBool b)) = Ok (SBool b)) /\ parse_value (format_scalar SNone) = Ok SNone.
+Proof. exact fmt_bool_none_roundtrip. Qed.
+Print Assumptions C04_fmt_bool_none.
+
+Theorem C04_fmt_float : forall r, is_py_repr r = true -> parse_value (format_scalar (SFloat r)) = Ok (SFloat r).
+Proof. exact fmt_float_roundtrip. Qed.
+Print Assumptions C04_fmt_float.
+
+(* the strings handed to int() / float() are inside CPython's literal grammars *)
+Theorem C04_numeric_safe : forall s,
+  (re_int s = true -> py_int_ok s = true) /\
+  (re_float2 s = true -> py_float_ok s = true) /\ (re_float3 s = true -> py_float_ok s = true).
+Proof. exact numeric_regexes_safe. Qed.
+Print Assumptions C04_numeric_safe.
